@@ -31,8 +31,15 @@ Guards against false alarms (latitude the statement leaves):
     popped for plain tags, which is outside C28).
   * raw-text element names (script, style, textarea, title ...) are not generated: their content
     model is decided by HTML tree construction, not by the tokenizer.
+
+Large-node family (added after the seeded regression C28-cdata-sliced-escape was missed): the random
+trees never exceed a few hundred bytes per string, so an implementation that escapes or writes big
+data in BUFFER_SIZE pieces was never exercised across a piece boundary.  `large_core()` enumerates,
+for every node kind, every hostile multi-character sequence at every cut across offset 65536; the
+rest of the tree is tiny and the same two oracles judge it.
 """
 import gc
+import re
 
 LEVEL = "exploration"
 ENGINE = "core"
@@ -43,7 +50,12 @@ RULE = ("random trees (depth <= 5) from (seed, case index): tag/attribute names 
         "NUL and C0/C1 controls, astral characters, invalid UTF-8 bytes); containers list/tuple/generator, "
         "slots, Deferreds fired before/after, coroutines, Elements with renderers, tags inside attributes. "
         "A case is distinct by its spec; non-trivial = at least one string containing a markup-significant "
-        "fragment (counted separately as hostile_strings).")
+        "fragment (counted separately as hostile_strings).  Plus the enumerated 'large node' family: one CDATA / "
+        "Comment / text / attribute-value node of length 65536*k + small (str and bytes; direct, via Deferred fired "
+        "before/after, coroutine, slot, list) with each multi-character hostile sequence (]]>, -->, --!>, <!--, --, "
+        "&amp;-like, CRLF, multi-byte characters ...) at every cut position across offset 65536*k (seed-independent "
+        "core, 384 trees) and a seeded sample over k = 1..3, other plausible buffer sizes (4096..131072), byte- vs "
+        "character-based offsets and tails (60 quick / 6000 thorough).")
 ASSUMPTIONS = [
     "trusted base: xml.parsers.expat (XML 1.0 well-formedness and events) and vf/engines/html5tok.py "
     "(WHATWG 13.2.5 tokenizer, data-state content only, self-tested on hand-written vectors)",
@@ -54,7 +66,10 @@ ASSUMPTIONS = [
 ]
 SHARDS = {"quick": 4, "thorough": 16}
 FLOORS = {"xml_compared": 20000, "html_compared": 20000, "hostile_strings": 200000, "attr_markup_reparsed": 5000,
-          "deferred_fired_late": 5000, "renderers_called": 500, "comments": 10000, "cdata_sections": 1000}
+          "deferred_fired_late": 5000, "renderers_called": 500, "comments": 10000, "cdata_sections": 1000,
+          # large-node family (a node longer than 64 KiB with a hostile sequence cut by a buffer-size multiple)
+          "large_trees": 300, "large_straddling_cdata": 40, "large_straddling_comment": 40, "large_straddling_text": 40,
+          "large_straddling_attr": 40, "large_wrapped": 20, "large_bytes": 20, "large_other_buffer_sizes": 5}
 READY = True
 
 TAGS = ["div", "p", "span", "a", "b", "i", "ul", "li", "table", "td", "h1", "em", "x-custom", "svg:g",
@@ -423,10 +438,13 @@ def comment_canon(d):
     return d
 
 
+_XML_ILLEGAL = re.compile("[\x00-\x08\x0b\x0c\x0e-\x1f]")
+
+
 def xml_legal(events):
     for e in events:
         if e[0] == "T" and not e[2] or e[0] in ("C", "D"):
-            if any(ord(c) < 32 and c not in "\t\n\r" for c in e[1]):
+            if _XML_ILLEGAL.search(e[1]):
                 return False
             if e[0] == "C" and "--" in doc_comment(e[1]):
                 return False
@@ -682,9 +700,14 @@ def make_spec(ctx, i):
 
 
 def run_case(ctx, i, report=True):
+    spec, rng, g = make_spec(ctx, i)
+    check_spec(ctx, spec, rng, {"case": i, "spec": repr(spec)[:3000]}, g.hostile, sample=i < 3)
+
+
+def check_spec(ctx, spec, rng, wit, hostile, sample=False):
+    """Flatten the tree built from `spec` and judge the bytes with both oracles."""
     from twisted.web.template import flattenString
 
-    spec, rng, g = make_spec(ctx, i)
     ev = []
     model(spec, {}, ev)
     b = Builder(ctx)
@@ -702,10 +725,9 @@ def run_case(ctx, i, report=True):
     for c in b.coros:
         c.close()  # coroutines in never-referenced slot fills: no "never awaited" noise
     ctx.evaluated()
-    ctx.count("hostile_strings", g.hostile)
+    ctx.count("hostile_strings", hostile)
     ctx.count("comments", sum(1 for e in ev if e[0] == "C"))
     ctx.count("cdata_sections", sum(1 for e in ev if e[0] == "D"))
-    wit = {"case": i, "spec": repr(spec)[:3000]}
     if not res:
         ctx.violation("flatten-never-finished", "flattenString did not fire although every Deferred in the tree fired", wit)
         return
@@ -715,8 +737,8 @@ def run_case(ctx, i, report=True):
         ctx.violation("flatten-raised", "flattenString failed on a tree of valid names and flattenable content", wit)
         return
     wit["output"] = out
-    if g.hostile:
-        ctx.distinct(repr(spec))
+    if hostile:
+        ctx.distinct(wit.get("large") or repr(spec))
     text = out.decode("latin-1")
     stats = {}
     ran = 0
@@ -756,8 +778,106 @@ def run_case(ctx, i, report=True):
         ctx.count("no_oracle_applicable")
     for k, v in stats.items():
         ctx.count(k, v)
-    if i < 3:
-        ctx.sample({"case": i, "spec": repr(spec)[:600], "output": out[:600], "oracles": ran})
+    if sample:
+        ctx.sample({"case": wit.get("case", wit.get("large")), "spec": repr(spec)[:600], "output": out[:600], "oracles": ran})
+    return ran
+
+
+# ------------------------------------------------------------------------------------------------
+# "large node" family: one node longer than a plausible internal buffer, with a multi-character
+# hostile sequence placed at every cut position across a multiple of the buffer size.  An
+# implementation that escapes/encodes/writes big data piecewise must not treat the pieces
+# independently.  (Seeded regression C28-cdata-sliced-escape: "]]>" across offset 65536.)
+# ------------------------------------------------------------------------------------------------
+LARGE_SEQS = ["]]>", "-->", "--!>", "<!--", "--", "]]", "->", "&amp;", "&lt;", "&#60;", "&quot;", "</b>", "<b>", "\r\n",
+              "<![CDATA[", "\xe9", "\U0001F600", "]]>]]>"]
+LARGE_KINDS = ["cdata", "comment", "text", "attr"]
+LARGE_WRAPS = ["direct", "deferred-fired", "deferred-late", "slot", "list", "coro"]
+
+
+def large_core():
+    """Seed-independent: every kind x sequence x cut (0..len: before, every straddle, after) at 65536, str."""
+    out = []
+    for kind in LARGE_KINDS:
+        for seq in LARGE_SEQS:
+            for cut in range(len(seq) + 1):
+                out.append({"kind": kind, "seq": seq, "cut": cut, "B": 65536, "k": 1, "bytes": False, "wrap": "direct",
+                            "basis": "chars", "tail": "tail<&>"})
+    # the construct's own terminator also as bytes and through a Deferred
+    for kind, seq in (("cdata", "]]>"), ("comment", "-->"), ("comment", "--!>"), ("text", "&amp;"), ("attr", "&quot;")):
+        for cut in range(1, len(seq)):
+            for isbytes, wrap in ((True, "direct"), (False, "deferred-late"), (True, "deferred-fired")):
+                out.append({"kind": kind, "seq": seq, "cut": cut, "B": 65536, "k": 1, "bytes": isbytes, "wrap": wrap,
+                            "basis": "chars", "tail": "tail"})
+    return out
+
+
+def large_random(rng):
+    seq = rng.choice(LARGE_SEQS)
+    return {"kind": rng.choice(LARGE_KINDS), "seq": seq, "cut": rng.randint(0, len(seq)) if rng.random() < 0.2 else rng.randint(1, max(1, len(seq) - 1)),
+            "B": rng.choice([65536, 65536, 65536, 65536, 8192, 16384, 32768, 4096, 131072]), "k": rng.choice([1, 1, 2, 3]),
+            "bytes": rng.random() < 0.4, "wrap": rng.choice(LARGE_WRAPS), "basis": rng.choice(["chars", "chars", "bytes"]),
+            "tail": rng.choice(["", "x", "tail", "]]>-->", "<b>&amp;</b>", "\r", "-"])}
+
+
+def large_spec(d):
+    """The spec of one large-node tree.  The hostile sequence starts at offset B*k - cut, counted in
+    characters of the str (or bytes of the bytes object) for basis "chars"; for basis "bytes" the data
+    begins with a two-byte character so that the *encoded* offset is what hits B*k."""
+    seq, cut, at = d["seq"], d["cut"], d["B"] * d["k"]
+    if d["bytes"] or d["basis"] == "bytes":
+        enc = seq.encode("utf-8")
+        cutb = min(cut, len(enc))
+        if d["bytes"]:
+            data = b"a" * (at - cutb) + enc + d["tail"].encode("utf-8")
+        else:
+            lead = "\xe9"  # 2 bytes, 1 character
+            data = lead + "a" * (at - cutb - 2) + seq + d["tail"]
+    else:
+        data = "a" * (at - cut) + seq + d["tail"]
+    kind, wrap = d["kind"], d["wrap"]
+    node = ("text", data) if kind in ("text", "attr") else (kind, data)
+    fills = []
+    if wrap == "deferred-fired":
+        node = ("deferred", node, False)
+    elif wrap == "deferred-late":
+        node = ("deferred", node, True)
+    elif wrap == "coro":
+        node = ("coro", node, True)
+    elif wrap == "list":
+        node = ("list", [("text", ""), node])
+    elif wrap == "slot":
+        fills = [("big", node)]
+        node = ("slot", "big", None)
+    if kind == "attr":
+        return ("tag", "div", [("title", ("str", node)), ("id", ("str", ("text", "x")))], [("text", "in")], fills)
+    return ("tag", "div", [("id", ("str", ("text", "x")))], [("text", "pre"), node, ("tag", "b", [], [("text", "post")], [])], fills)
+
+
+def run_large(ctx, j, d):
+    spec = large_spec(d)
+    straddle = 0 < d["cut"] < len(d["seq"])
+    ctx.count("large_trees")
+    if straddle:
+        ctx.count("large_straddling_" + d["kind"])
+    if d["B"] != 65536:
+        ctx.count("large_other_buffer_sizes")
+    if d["wrap"] != "direct":
+        ctx.count("large_wrapped")
+    if d["bytes"]:
+        ctx.count("large_bytes")
+    ctx.seen("large_buffer_sizes", d["B"])
+    ran = check_spec(ctx, spec, ctx.case_rng("large-run", j), {"large": "large-%s" % j, "large_index": j, "desc": d}, 1)
+    if not ran:
+        ctx.count("large_without_oracle")
+
+
+def large_cases(ctx):
+    core = large_core()
+    cases = [(j, d) for j, d in enumerate(core)]
+    for j in range(ctx.size(60, 6000)):
+        cases.append((len(core) + j, large_random(ctx.case_rng("large", j))))
+    return cases
 
 
 def run(ctx):
@@ -768,6 +888,9 @@ def run(ctx):
     except AssertionError as e:
         ctx.inconclusive("html5tok selftest failed: %s" % e)
         return
+    for j, d in large_cases(ctx):
+        if ctx.owns(j):
+            run_large(ctx, j, d)
     for i in ctx.cases(60000, 2000000):
         run_case(ctx, i)
         if i % 5000 < ctx.nshards:
@@ -775,4 +898,9 @@ def run(ctx):
 
 
 def replay(ctx, w):
-    run_case(ctx, w["witness"]["case"])
+    x = w["witness"]
+    if "large_index" in x:
+        j = x["large_index"]
+        run_large(ctx, j, dict(large_cases(ctx))[j])
+    else:
+        run_case(ctx, x["case"])
